@@ -4,7 +4,9 @@ For every generated case (network x function x arguments) the real xgi function 
 definition from the property statement is evaluated by brute force on what it returned (the failing-input
 search), and the returned network (nodes in order, edges in order, members, memberships, three attribute levels,
 counter, frozen flag, outcome kind) is compared with what the Lean model (lean/XgiModel/C19/Derived.lean and the
-in-place functions of Core/HG.lean) computes for the same request.
+in-place functions of Core/HG.lean) computes for the same request.  `cleanup` / `convert_labels_to_integers` of
+SimplicialComplex and DiHypergraph are compared with the C03 / C02 models through the same driver (C19/Other.lean).
+Every call that returns a new network must leave its argument untouched.
 """
 import copy
 import glob
@@ -18,6 +20,7 @@ from xgi.exception import XGIError
 
 from .. import fn
 from .. import hg as MH
+from .. import dhg as MD
 from ..core import (Infra, TRUSTED_COMMON, VERIF, build_and_audit, canon, dec_id, enc_attrs, enc_attrs_req, enc_id,
                     finish, idkey, jhash, run_driver)
 
@@ -146,6 +149,7 @@ def run_impl(req):
         H2 = build_enc(req["H2"])
         req["H2"] = enc_full(H2, req["H2"].get("cls", "hg"))
     exc, R = None, None
+    before = [MH.snapshot(X, "ok") for X in (H, H2) if X is not None]
     with warnings.catch_warnings(record=True) as w:
         warnings.simplefilter("always")
         try:
@@ -153,11 +157,24 @@ def run_impl(req):
         except Exception as e:  # noqa
             exc = e
     out = MH.outcome_of(exc, any(issubclass(x.category, UserWarning) for x in w))
+    mutated = None
+    if not in_place(req):
+        # every function of this property except the in_place=True variants returns a NEW network (or a view):
+        # the argument(s) must be exactly what they were
+        after = [MH.snapshot(X, "ok") for X in (H, H2) if X is not None]
+        if after != before:
+            k = 0 if after[0] != before[0] else 1
+            diff = [x for x in before[k] if before[k][x] != after[k].get(x)]
+            mutated = (f"argument {'H' if k == 0 else 'H2'} changed in {diff}: nodes {before[k]['nodes']} -> {after[k]['nodes']}, "
+                       f"edges {before[k]['edges']} -> {after[k]['edges']}")
+        elif R is H or (H2 is not None and R is H2):
+            mutated = "the call returned its argument, not a new network"
     if exc is not None and not in_place(req):
-        return req, {"out": out}, exc
+        return req, {"out": out, "arg_mutated": mutated}, exc
     if req["f"] == "maximal":
-        return req, {"out": out, "ids": [enc_id(i) for i in R]}, exc
+        return req, {"out": out, "ids": [enc_id(i) for i in R], "arg_mutated": mutated}, exc
     snap = MH.snapshot(H if exc is not None else R, out)
+    snap["arg_mutated"] = mutated
     return req, snap, exc
 
 
@@ -248,6 +265,15 @@ def MH_c01_pred(snap):
 
 
 def pred(req, snap, exc):
+    """the definition of req['f'] evaluated on the result, and: a call that returns a new network leaves its
+    argument(s) untouched"""
+    fails = pred_def(req, snap, exc)
+    if snap.get("arg_mutated"):
+        fails = fails + [("argument-mutated", f"{req['f']}({ {k: v for k, v in req.items() if k not in ('H', 'H2', 'f')} }): {snap['arg_mutated']}")]
+    return fails
+
+
+def pred_def(req, snap, exc):
     """list of (failure_class, detail): the set-theoretic definition of req['f'] evaluated on the result"""
     f = req["f"]
     fails = []
@@ -708,113 +734,360 @@ def pred_classes(req):
 
 
 
-# ----------------------------------------------------------------------------- cleanup of the other two classes
-# (SimplicialComplex.cleanup, DiHypergraph.cleanup: predicate on the implementation only, no model)
+# ----------------------------------------------------------------------------- cleanup / relabelling of the other two classes
+# SimplicialComplex.cleanup, DiHypergraph.cleanup and convert_labels_to_integers on both: brute-force predicate on the
+# implementation (guarantees, exact expected network with attributes and recorded old labels, argument untouched when
+# in_place=False) AND differential against the C03 / C02 state-machine models through the C19 driver.
+
+OTHER_SITE = {"sc_cleanup": "SimplicialComplex.cleanup", "dh_cleanup": "DiHypergraph.cleanup",
+              "sc_relabel": "convert_labels_to_integers", "dh_relabel": "convert_labels_to_integers"}
+DH_FIELDS = ["out", "nodes", "edges", "tail", "head", "membIn", "membOut", "nattr", "eattr", "nattrK", "eattrK", "net",
+             "uid", "frozen", "indeg", "outdeg", "deg", "tailsize", "headsize", "size"]
+
+
+def build_dh(enc):
+    DH = xgi.DiHypergraph()
+    nattr = {json.dumps(k): a for k, a in enc.get("nattr", [])}
+    eattr = {json.dumps(k): a for k, a in enc.get("eattr", [])}
+    DH.add_nodes_from([(dec_id(n), _attrs(nattr.get(json.dumps(n), []))) for n in enc["nodes"]])
+    items = [(([dec_id(x) for x in t], [dec_id(x) for x in h]), dec_id(e), _attrs(eattr.get(json.dumps(e), [])))
+             for e, t, h in enc["edges"]]
+    if items:
+        DH.add_edges_from(items)
+    for k, v in enc.get("net", []):
+        DH[k] = MH._val(v)
+    if enc.get("frozen"):
+        DH.freeze()
+    return DH
+
+
+def enc_dh(DH):
+    try:
+        uid = next(copy.copy(DH._edge_uid))
+    except Exception:  # noqa
+        uid = 0
+    return {"nodes": [enc_id(n) for n in DH.nodes],
+            "edges": [[enc_id(e), [enc_id(x) for x in DH.edges.tail(e)], [enc_id(x) for x in DH.edges.head(e)]] for e in DH.edges],
+            "nattr": [[enc_id(n), enc_attrs_req(DH.nodes[n])] for n in DH.nodes if DH.nodes[n]],
+            "eattr": [[enc_id(e), enc_attrs_req(DH.edges[e])] for e in DH.edges if DH.edges[e]],
+            "net": enc_attrs_req(DH._net_attr), "uid": uid, "frozen": bool(DH.is_frozen)}
+
+
+class _View:
+    """plain-Python picture of a network of either class: nodes / edges in view order, members as (tail, head)
+    frozensets (undirected: (members, ∅)), deep copies of the three attribute levels"""
+
+    def __init__(self, N, directed):
+        self.nodes = list(N.nodes)
+        self.edges = list(N.edges)
+        if directed:
+            self.mem = {e: (frozenset(N.edges.dimembers(e)[0]), frozenset(N.edges.dimembers(e)[1])) for e in self.edges}
+        else:
+            self.mem = {e: (frozenset(N.edges.members(e)), frozenset()) for e in self.edges}
+        self.nattr = {n: copy.deepcopy(dict(N.nodes[n])) for n in self.nodes}
+        self.eattr = {e: copy.deepcopy(dict(N.edges[e])) for e in self.edges}
+        self.net = copy.deepcopy(dict(N._net_attr))
+        self.frozen = bool(N.is_frozen)
+
+    def key(self):
+        return (self.nodes, self.edges, self.mem, self.nattr, self.eattr, self.net, self.frozen)
+
+
+def _other_expected(req, V):
+    """the network the definition asks for, by brute force: (surviving nodes in order, surviving edges in order)"""
+    f = req["f"]
+    und = {e: t | h for e, (t, h) in V.mem.items()}
+    kn, keep = list(V.nodes), list(V.edges)
+    if f in ("sc_cleanup", "dh_cleanup") and not req["isolates"]:
+        used = set().union(*und.values()) if und else set()
+        kn = [n for n in kn if n in used]
+    if f == "sc_cleanup" and req["connected"]:
+        comps = components(kn, {e: und[e] for e in keep})
+        if comps:
+            big = max(len(c) for c in comps)
+            first = set(next(c for c in comps if len(c) == big))
+            kn = [n for n in kn if n in first]
+    # a simplex / edge survives iff all its nodes do (only nodes outside every kept edge are ever deleted)
+    keep = [e for e in keep if und[e] <= set(kn)]
+    return kn, keep
+
 
 def run_other(req):
-    """returns list of (failure_class, detail) for an sc_cleanup / dh_cleanup request"""
+    """(request completed with the real encoding, snapshot for the differential comparison, [(failure_class, detail)])"""
+    f = req["f"]
+    directed = f.startswith("dh_")
+    req = dict(req)
+    if directed:
+        N = build_dh(req["DH"]); req["DH"] = enc_dh(N)
+    else:
+        N = build_enc(req["H"]); req["H"] = enc_full(N, "sc")
+    V0 = _View(N, directed)
+    ip = req["in_place"]
+    relab = req.get("relabel", True)
+    la = req.get("label_attribute", "label")
+    if f.endswith("_cleanup"):
+        flags = {k: req[k] for k in (("isolates", "relabel") if directed else ("isolates", "connected", "relabel"))}
+        what = f"{type(N).__name__}.cleanup({flags}, in_place={ip})"
+    else:
+        what = f"convert_labels_to_integers({type(N).__name__}, label_attribute={la!r}, in_place={ip})"
+    exc, R = None, None
+    with warnings.catch_warnings(record=True) as w:
+        warnings.simplefilter("always")
+        try:
+            if f.endswith("_cleanup"):
+                R = N.cleanup(**flags, in_place=ip)
+            else:
+                R = xgi.convert_labels_to_integers(N, label_attribute=la, in_place=ip)
+        except Exception as ex:  # noqa
+            exc = ex
+    out = MH.outcome_of(exc, any(issubclass(x.category, UserWarning) for x in w))
     fails = []
     bad = lambda c, d="": fails.append((c, d))
-    if req["f"] == "sc_cleanup":
-        H = build_enc(req["H"])
-        nodes = list(H.nodes)
-        mem = {e: frozenset(H.edges.members(e)) for e in H.edges}
-        fl = {k: req[k] for k in ("isolates", "connected", "relabel")}
-        try:
-            with warnings.catch_warnings():
-                warnings.simplefilter("ignore")
-                H.cleanup(**fl)
-        except Exception as ex:  # noqa
-            kn = nodes if fl["isolates"] else [n for n in nodes if any(n in m for m in mem.values())]
-            if fl["connected"] and not kn and isinstance(ex, ValueError):
-                return [("raises-on-null-network", f"SimplicialComplex.cleanup({fl}) raised {type(ex).__name__}: {ex}")]
-            return [("raised", f"SimplicialComplex.cleanup({fl}) raised {type(ex).__name__}: {ex}")]
-        rn = list(H.nodes)
-        rmem = {e: frozenset(H.edges.members(e)) for e in H.edges}
-        if not fl["isolates"] and any(not any(n in m for m in rmem.values()) for n in rn):
-            bad("isolated-node-left", f"{rn} {rmem}")
-        if fl["connected"] and len(components(rn, rmem)) > 1:
-            bad("not-connected", f"{components(rn, rmem)}")
-        if fl["relabel"] and (rn != list(range(len(rn))) or list(rmem) != list(range(len(rmem)))):
-            bad("labels-not-a-range", f"{rn} {list(rmem)}")
-        on = {n: (H.nodes[n].get("label") if fl["relabel"] else n) for n in rn}
-        kn = nodes if fl["isolates"] else [n for n in nodes if any(n in m for m in mem.values())]
-        if fl["connected"]:
-            comps = components(kn, mem)
-            if comps:
-                big = max(len(c) for c in comps)
-                kn = next(c for c in comps if len(c) == big)
-        if [on[n] for n in rn] != [n for n in nodes if n in set(kn)]:
-            bad("nodes-differ-from-definition", f"got {[on[n] for n in rn]} want {[n for n in nodes if n in set(kn)]}")
-        else:
-            got = sorted(sorted(map(repr, (on[x] for x in m))) for m in rmem.values())
-            want = sorted(sorted(map(repr, m)) for m in mem.values() if m <= set(kn))
-            if got != want:
-                bad("simplices-differ-from-definition", f"got {got} want {want}")
-        return fails
-    if req["f"] == "dh_cleanup":
-        D = req["DH"]
-        DH = xgi.DiHypergraph()
-        DH.add_nodes_from([dec_id(n) for n in D["nodes"]])
-        DH.add_edges_from([(([dec_id(x) for x in t], [dec_id(x) for x in h]), dec_id(e), {}) for e, t, h in D["edges"]])
-        nodes = list(DH.nodes)
-        dm = {e: (frozenset(DH.edges.dimembers(e)[0]), frozenset(DH.edges.dimembers(e)[1])) for e in DH.edges}
-        fl = {k: req[k] for k in ("isolates", "relabel")}
-        try:
-            with warnings.catch_warnings():
-                warnings.simplefilter("ignore")
-                DH.cleanup(**fl)
-        except Exception as ex:  # noqa
-            return [("raised", f"DiHypergraph.cleanup({fl}) raised {type(ex).__name__}: {ex}")]
-        rn = list(DH.nodes)
-        rdm = {e: (frozenset(DH.edges.dimembers(e)[0]), frozenset(DH.edges.dimembers(e)[1])) for e in DH.edges}
-        used = {x for t, h in rdm.values() for x in t | h}
-        if not fl["isolates"] and any(n not in used for n in rn):
-            bad("isolated-node-left", f"{rn} {rdm}")
-        if fl["relabel"] and (rn != list(range(len(rn))) or list(rdm) != list(range(len(rdm)))):
-            bad("labels-not-a-range", f"{rn} {list(rdm)}")
-        on = {n: (DH.nodes[n].get("label") if fl["relabel"] else n) for n in rn}
-        oe = {e: (DH.edges[e].get("label") if fl["relabel"] else e) for e in rdm}
-        inuse = {x for t, h in dm.values() for x in t | h}
-        want_n = nodes if fl["isolates"] else [n for n in nodes if n in inuse]
-        if [on[n] for n in rn] != want_n:
-            bad("nodes-differ-from-definition", f"got {[on[n] for n in rn]} want {want_n}")
-        elif [oe[e] for e in rdm] != list(dm):
-            bad("edges-differ-from-definition", f"got {[oe[e] for e in rdm]} want {list(dm)}")
-        else:
-            for e in rdm:
-                got = (frozenset(on[x] for x in rdm[e][0]), frozenset(on[x] for x in rdm[e][1]))
-                if got != dm[oe[e]]:
-                    bad("members-changed", f"edge {oe[e]!r}: got {got} want {dm[oe[e]]}")
-        return fails
-    raise AssertionError(req["f"])
+    V1 = _View(N, directed)                                   # the argument after the call
+    if not ip and V1.key() != V0.key():
+        diff = [k for k, x, y in zip(("nodes", "edges", "members", "node-attrs", "edge-attrs", "net-attrs", "frozen"),
+                                     V0.key(), V1.key()) if x != y]
+        bad("argument-mutated", f"{what} changed its argument ({', '.join(diff)}): nodes {V0.nodes} -> {V1.nodes}, "
+                                f"edges {V0.edges} -> {V1.edges}")
+    res = N if ip else R
+    if exc is not None:
+        snap = (MD.snapshot(MD.Box(N), out) if directed else MH.snapshot(N, out)) if ip else {"out": out}
+        if V0.frozen and ip and out == "err:lib":
+            if V1.key() != V0.key():
+                bad("frozen-network-changed", f"{what} raised on a frozen network after changing it")
+            return req, snap, fails
+        bad("raised", f"{what} raised {type(exc).__name__}: {exc}")
+        return req, snap, fails
+    if ip and f.endswith("_cleanup") and R is not N:
+        bad("in-place-returns-other-object", what)
+    if not ip and (R is None or R is N):
+        bad("not-a-new-network", f"{what} returned {'None' if R is None else 'its argument'}")
+        return req, {"out": out}, fails
+    snap = MD.snapshot(MD.Box(res), out) if directed else MH.snapshot(res, out)
+    VR = _View(res, directed)
+    # --- the result is a well-formed network of its class
+    if directed:
+        from .c02 import clauses as dh_clauses
+        fails += [("result-" + c, d) for c, d in dh_clauses(snap)][:1]
+    else:
+        fails += wf_fails(snap)[:1]
+        sets = {t for t, _ in VR.mem.values()}
+        for t in list(sets):
+            for k in range(2, len(t)):        # xgi stores the faces with >= 2 nodes
+                for c in itertools.combinations(sorted(t, key=repr), k):
+                    if frozenset(c) not in sets:
+                        bad("result-not-closed", f"{set(t)} is a simplex of the result but its face {set(c)} is not")
+                        break
+                else:
+                    continue
+                break
+    und = {e: t | h for e, (t, h) in VR.mem.items()}
+    # --- the guarantees, read off the result alone
+    if f.endswith("_cleanup") and not req["isolates"]:
+        used = set().union(*und.values()) if und else set()
+        iso = [n for n in VR.nodes if n not in used]
+        if iso:
+            bad("isolated-node-left", f"{what}: {iso}")
+    if f == "sc_cleanup" and req["connected"] and len(components(VR.nodes, und)) > 1:
+        bad("not-connected", f"{what}: {components(VR.nodes, und)}")
+    if relab and (VR.nodes != list(range(len(VR.nodes))) or VR.edges != list(range(len(VR.edges)))):
+        bad("labels-not-a-range", f"{what}: nodes {VR.nodes} edges {VR.edges}")
+    # --- old labels, recorded under the label attribute
+    if relab:
+        miss = [n for n in VR.nodes if la not in VR.nattr[n]] + [("edge", e) for e in VR.edges if la not in VR.eattr[e]]
+        if miss:
+            bad("old-label-not-recorded", f"{what}: no {la!r} attribute on {miss}")
+            return req, snap, fails
+        on = {n: VR.nattr[n][la] for n in VR.nodes}
+        oe = {e: VR.eattr[e][la] for e in VR.edges}
+    else:
+        on = {n: n for n in VR.nodes}
+        oe = {e: e for e in VR.edges}
+    # --- exactly the expected survivors, in the original order, with their members and attributes
+    kn, keep = _other_expected(req, V0)
+    got_n, got_e = [on[n] for n in VR.nodes], [oe[e] for e in VR.edges]
+    same = lambda x, y: list(map(repr, x)) == list(map(repr, y))
+    if not same(got_n, kn):
+        bad("nodes-differ-from-definition", f"{what}: got {got_n} want {kn}")
+        return req, snap, fails
+    if not same(got_e, keep):
+        bad("edges-differ-from-definition", f"{what}: got {got_e} want {keep}")
+        return req, snap, fails
+    new = {o: n for n, o in on.items()}
+    strip = lambda a: {k: v for k, v in a.items() if not (relab and k == la)}
+    for e in VR.edges:
+        want = tuple(frozenset(new[x] for x in side) for side in V0.mem[oe[e]])
+        if VR.mem[e] != want:
+            bad("members-changed", f"{what}: edge {oe[e]!r}: got {tuple(map(set, VR.mem[e]))} want {tuple(map(set, want))}")
+        if strip(VR.eattr[e]) != strip(V0.eattr[oe[e]]):
+            bad("edge-attrs-changed", f"{what}: edge {oe[e]!r}: got {VR.eattr[e]} had {V0.eattr[oe[e]]}")
+    for n in VR.nodes:
+        if strip(VR.nattr[n]) != strip(V0.nattr[on[n]]):
+            bad("node-attrs-changed", f"{what}: node {on[n]!r}: got {VR.nattr[n]} had {V0.nattr[on[n]]}")
+    if VR.net != V0.net:
+        bad("net-attrs-changed", f"{what}: got {VR.net} had {V0.net}")
+    if VR.frozen and not (ip and V0.frozen):
+        bad("result-frozen", what)
+    return req, snap, fails
 
 
-def gen_other(rng):
-    if rng.random() < 0.5:
-        H = gen_net(rng, "sc", max_nodes=6, max_edges=3, frozen=0.0)
-        return {"f": "sc_cleanup", "H": H, "isolates": rng.random() < 0.5, "connected": rng.random() < 0.5,
-                "relabel": rng.random() < 0.5}
-    nodes, edges = fn.gen_hypergraph(rng, max_nodes=6, max_edges=5)
-    des = []
+def norm_other(f, snap):
+    if "nodes" not in snap:
+        return {"out": snap["out"]}
+    return {k: snap.get(k) for k in (DH_FIELDS if f.startswith("dh_") else FIELDS)}
+
+
+def gen_dh(rng, frozen=0.08):
+    nodes, edges = fn.gen_hypergraph(rng, max_nodes=6, max_edges=5, allow_empty_edges=True)
+    des, seen = [], set()
     for e, ms in edges:
+        if repr(e) in seen:
+            continue
+        seen.add(repr(e))
         k = rng.randint(0, len(ms))
-        if repr(e) not in {repr(x[0]) for x in des}:
-            des.append([enc_id(e), [enc_id(x) for x in ms[:k]], [enc_id(x) for x in ms[k:]] + ([enc_id(rng.choice(nodes))] if rng.random() < 0.3 else [])])
-    return {"f": "dh_cleanup", "DH": {"nodes": [enc_id(n) for n in nodes], "edges": des},
-            "isolates": rng.random() < 0.5, "relabel": rng.random() < 0.5}
+        head = ms[k:] + ([rng.choice(nodes)] if rng.random() < 0.3 else [])
+        des.append([enc_id(e), [enc_id(x) for x in ms[:k]], [enc_id(x) for x in dict.fromkeys(head)]])
+    return {"nodes": [enc_id(n) for n in nodes], "edges": des,
+            "nattr": [[enc_id(n), enc_attrs_req(a)] for n in nodes for a in [rand_attrs(rng, 0.5)] if a],
+            "eattr": [[e, enc_attrs_req(a)] for e, _, _ in des for a in [rand_attrs(rng, 0.5)] if a],
+            "net": enc_attrs_req(rand_attrs(rng, 0.4)), "frozen": rng.random() < frozen}
 
 
-OTHER_SITE = {"sc_cleanup": "SimplicialComplex.cleanup", "dh_cleanup": "DiHypergraph.cleanup"}
+def gen_other(rng, f=None):
+    f = f or rng.choice(["sc_cleanup", "sc_cleanup", "dh_cleanup", "dh_cleanup", "sc_relabel", "dh_relabel"])
+    req = {"f": f, "in_place": rng.random() < 0.5}
+    if f.startswith("sc_"):
+        req["H"] = gen_net(rng, "sc", max_nodes=6, max_edges=3, frozen=0.08, attrs=0.5)
+    else:
+        req["DH"] = gen_dh(rng)
+    if f.endswith("_relabel"):
+        req["label_attribute"] = rng.choice(["label", "old", "w"])
+    else:
+        req["isolates"] = rng.random() < 0.5
+        req["relabel"] = rng.random() < 0.5
+        if f == "sc_cleanup":
+            req["connected"] = rng.random() < 0.5
+    return req
+
+
+OTHER_AWKWARD = [
+    {"f": "sc_cleanup", "H": {"nodes": [], "edges": [], "cls": "sc"}},
+    {"f": "sc_cleanup", "H": {"nodes": [1, 2, 3], "edges": [], "cls": "sc", "nattr": [[2, [["w", 1]]]]}},
+    {"f": "sc_cleanup", "H": {"nodes": [9, 1, 2, 3, 4], "edges": [["a", [1, 2]], ["b", [3, 4]]], "cls": "sc",
+                              "eattr": [["a", [["w", 1]]], ["b", [["label", "x"]]]], "net": [["name", "n"]]}},
+    {"f": "sc_cleanup", "H": {"nodes": ["x", 5, 6, 7, 8], "edges": [[3, [5, 6, 7]], [1, [8]]], "cls": "sc",
+                              "nattr": [[5, [["label", 0]]], ["x", [["w", 2]]]], "eattr": [[3, [["w", [1, 2]]]]]}},
+    {"f": "dh_cleanup", "DH": {"nodes": [], "edges": []}},
+    {"f": "dh_cleanup", "DH": {"nodes": [3, 1, 2], "edges": [["e", [], []]], "eattr": [["e", [["w", 1]]]]}},
+    {"f": "dh_cleanup", "DH": {"nodes": ["a", "b", "c", "d"], "edges": [[7, ["a"], ["b", "c"]], [2, ["c"], ["c"]]],
+                               "nattr": [["a", [["label", "z"]]], ["d", [["w", 0]]]],
+                               "eattr": [[7, [["w", 5], ["color", "r"]]], [2, [["label", None]]]], "net": [["name", "n"]]}},
+]
+
+
+def other_awkward_cases():
+    for A in OTHER_AWKWARD:
+        sc = A["f"].startswith("sc_")
+        for ip in (False, True):
+            for iso in (False, True):
+                for rel in (False, True):
+                    for con in ((False, True) if sc else (None,)):
+                        r = dict(copy.deepcopy(A), isolates=iso, relabel=rel, in_place=ip)
+                        if sc:
+                            r["connected"] = con
+                        yield r
+            r = dict(copy.deepcopy(A), f=A["f"][:3] + "relabel", label_attribute="label", in_place=ip)
+            yield r
+
+
+def shrink_other(req, still, budget=120):
+    req = copy.deepcopy(req)
+    key = "DH" if "DH" in req else "H"
+
+    def attempts(r):
+        H = r[key]
+        for i in range(len(H["edges"]) - 1, -1, -1):
+            c = copy.deepcopy(r); del c[key]["edges"][i]; yield c
+        for i in range(len(H["nodes"]) - 1, -1, -1):
+            n = H["nodes"][i]
+            c = copy.deepcopy(r); del c[key]["nodes"][i]
+            c[key]["edges"] = [[p[0]] + [[x for x in side if x != n] for side in p[1:]] for p in c[key]["edges"]]
+            yield c
+        for k in ("nattr", "eattr", "net"):
+            if H.get(k):
+                for i in range(len(H[k])):
+                    c = copy.deepcopy(r); del c[key][k][i]; yield c
+        if H.get("frozen"):
+            c = copy.deepcopy(r); c[key]["frozen"] = False; yield c
+    changed = True
+    while changed and budget > 0:
+        changed = False
+        for c in attempts(req):
+            budget -= 1
+            if budget <= 0:
+                break
+            try:
+                if still(c):
+                    req, changed = c, True
+                    break
+            except Exception:  # noqa
+                continue
+    return req
 
 
 def evaluate_other(ctx, reqs):
+    done, results = [], []
     for req in reqs:
-        fails = run_other(copy.deepcopy(req))
+        r, snap, fails = run_other(copy.deepcopy(req))
         ctx.evaluations += 1
-        ctx.stats["fn:" + req["f"]] += 1
+        ctx.stats["fn:" + r["f"]] += 1
+        ctx.stats["out:" + snap["out"]] += 1
         if fails:
-            ctx.violation(OTHER_SITE[req["f"]], fails[0][0], req, detail=fails[0][1])
+            cls0 = fails[0][0]
+
+            def still(c, cls0=cls0):
+                return cls0 in [x for x, _ in run_other(copy.deepcopy(c))[2]]
+            small = shrink_other(req, still)
+            r2, _, f2 = run_other(copy.deepcopy(small))
+            detail = next((d for c, d in f2 if c == cls0), fails[0][1])
+            ctx.violation(OTHER_SITE[r["f"]], cls0, r2, detail=detail)
+        net = r.get("DH") or r["H"]
+        if any(sum(len(side) for side in p[1:]) >= 2 for p in net["edges"]):
+            ctx.nontrivial.add(jhash([r, snap.get("nodes"), snap.get("mem"), snap.get("tail"), snap.get("head")]))
+        if r["f"].startswith("dh_"):
+            ctx.sample({"request": {k: v for k, v in r.items() if k != "DH"}, "DH": r["DH"], "impl": norm_other(r["f"], snap)}, cap=5)
+        done.append(r)
+        results.append((norm_other(r["f"], snap), fails))
+    return done, results
+
+
+def correspond_other(ctx, done, results):
+    resps = run_driver("C19", done)
+    dis = []
+    for r, (im, fails), m in zip(done, results, resps):
+        if m.get("out") == "bad-op":
+            raise Infra(f"model rejected request (harness defect): {json.dumps(r)[:400]}")
+        if m.get("out") == "unmodelled":
+            ctx.stats["unmodelled"] += 1
+            continue
+        ctx.traces += 1
+        mo = norm_other(r["f"], canon(m))
+        if mo != im:
+            if fails:
+                ctx.stats["disagree-on-violation:" + r["f"]] += 1
+                continue
+            dis.append((r, im, mo))
+            ctx.stats["disagree:" + r["f"]] += 1
+    if dis:
+        ctx.extra.setdefault("disagreements", [])
+        for r, im, mo in dis[:5]:
+            diff = [k for k in set(im) | set(mo) if im.get(k) != mo.get(k)]
+            ctx.extra["disagreements"].append({"request": r, "fields": diff, "impl": {k: im.get(k) for k in diff},
+                                               "model": {k: mo.get(k) for k in diff}})
+        ctx.extra["disagreements_total"] = ctx.extra.get("disagreements_total", 0) + len(dis)
+        ctx.broken.append(f"correspondence C19: model and implementation differ on {len(dis)} of {len(done)} cases "
+                          f"(functions: {sorted({r['f'] for r, _, _ in dis})})")
+    return dis
 
 # ----------------------------------------------------------------------------- the check
 
@@ -883,7 +1156,7 @@ def correspond(ctx, done, results):
     return dis
 
 
-def load_corpus():
+def load_corpus(other=False):
     out = []
     for p in sorted(glob.glob(os.path.join(VERIF, "corpus", "C19", "*.json"))):
         try:
@@ -891,11 +1164,12 @@ def load_corpus():
             out.append(j.get("case", j))
         except Exception:  # noqa
             pass
-    return [c for c in out if isinstance(c, dict) and "f" in c and "H" in c]
+    return [c for c in out if isinstance(c, dict) and "f" in c and ("H" in c or "DH" in c) and (c["f"] in OTHER_SITE) == other]
 
 
 def run(ctx):
-    ok = build_and_audit(ctx, "XgiModel.Props.C19", ["XgiModel.C19.Drive"])
+    ok = build_and_audit(ctx, "XgiModel.Props.C19", ["XgiModel.C19.Drive", "XgiModel.Props.C19O"],
+                         audit_extra=["XgiModel.Props.C19O"])
     rng = ctx.rng
     reqs = load_corpus()
     ctx.stats["corpus_cases"] = len(reqs)
@@ -922,22 +1196,30 @@ def run(ctx):
                                          "subhypergraph 3x2 selections, relabel, all 32 cleanup flag settings}; simplicial "
                                          "complexes generated by <=2 simplices x {from_max_simplices, k_skeleton 0..2}")
     done, results = evaluate(ctx, reqs)
-    evaluate_other(ctx, [{"f": "sc_cleanup", "H": {"nodes": [], "edges": [], "cls": "sc"}, "isolates": False, "connected": True, "relabel": True}]
-                   + [gen_other(rng) for _ in range(ctx.n(150, 4000))])
-    dis = correspond(ctx, done, results)
+    oreqs = [c for c in load_corpus(other=True)] + list(other_awkward_cases()) + [gen_other(rng) for _ in range(ctx.n(1500, 8000))]
+    odone, oresults = evaluate_other(ctx, oreqs)
+    dis = correspond(ctx, done, results) + correspond_other(ctx, odone, oresults)
+
+    ctx.extra["unmodelled_cases"] = ctx.stats.get("unmodelled", 0)      # requests the model declined (skipped in the comparison)
+    if ctx.stats.get("unmodelled", 0) > 0.05 * max(1, len(done) + len(odone)):
+        ctx.broken.append(f"correspondence C19: the model declined {ctx.stats['unmodelled']} of {len(done) + len(odone)} requests "
+                          "(the generators are meant to stay inside the model)")
 
     def search():
         # broken tie and no failing input yet: many more cases on the functions involved
-        fs = sorted({r["f"] for r, _, _ in dis}) or FUNCS
-        more = [gen_case(rng, rng.choice(fs)) for _ in range(ctx.n(1500, 10000))]
+        fs = sorted({r["f"] for r, _, _ in dis}) or (FUNCS + list(OTHER_SITE))
+        more = [rng.choice(fs) for _ in range(ctx.n(1500, 10000))]
         ctx.stats["targeted_cases"] = len(more)
-        evaluate(ctx, more)
+        evaluate(ctx, [gen_case(rng, f) for f in more if f not in OTHER_SITE])
+        evaluate_other(ctx, [gen_other(rng, f) for f in more if f in OTHER_SITE])
     fn.conclude(ctx, ok, dis, search)
     ctx.rule = ("networks from harness/fn.py generators (any int/str/mixed labels, isolated nodes, singletons, multi-edges, "
                 "empty edges, node/edge/network attributes, sometimes frozen) x function x arguments (node/edge selections "
                 "cutting through edges and naming foreign IDs, orders -1..4, EdgeView.maximal strict/non-strict (empty and "
                 "repeated edges included), all 2^5 cleanup flag settings x in_place, a "
-                "second network with overlapping nodes and edge IDs for <<), plus a fixed list of awkward networks; "
+                "second network with overlapping nodes and edge IDs for <<), plus a fixed list of awkward networks; simplicial complexes and "
+                "directed hypergraphs with node / edge / network attributes (sometimes frozen, a 'label' key already present, empty directed "
+                "edges, nodes in both tail and head) x cleanup flag settings x in_place x label_attribute; corpus/C19 first; "
                 "non-trivial = distinct (request, result) with an edge of >=2 members")
     ctx.assumptions = ["IDs restricted to int/str/tuple-of-atoms; bool/float IDs outside the model",
                        "node order of a dual and edge order of a complement come from Python set iteration and are compared as sets",
@@ -949,7 +1231,11 @@ def run(ctx):
                        "edge IDs of one kind (int, str, tuple of ints, tuple of strs) are ordered as Python does; every other class of "
                        "repeated-edge IDs counts as unsortable in the shared model (mixed tuples that Python can still order are not generated)",
                        "EdgeView.maximal is driven directly on hypergraphs (a SimplicialComplex cannot hold an empty simplex)",
-                       "SimplicialComplex.cleanup and DiHypergraph.cleanup are checked by the predicate only (no model)"]
+                       "SimplicialComplex.cleanup / DiHypergraph.cleanup / convert_labels_to_integers on both: compared with the C03 / C02 "
+                       "state-machine models (SC.cleanup, SC.relabel, DHG.cleanup, DHG.relabel, copies for in_place=False) and checked by "
+                       "the predicate; int / str IDs only (no tuple IDs) for these two classes",
+                       "a call that returns a new network must leave its argument(s) exactly as they were (public snapshot before / after) "
+                       "and must not return the argument itself"]
     return finish(ctx, trusted_base=TRUSTED_COMMON + [
         "harness/props/c19.py: brute-force definitions (itertools, union-find) used as the predicate; network builder/encoder",
         "the private read copy.copy(H._edge_uid) for the counter"])
@@ -959,10 +1245,10 @@ def replay(ctx, path):
     j = json.load(open(path))
     case = j.get("case", j)
     if case.get("f") in OTHER_SITE:
-        fails = run_other(copy.deepcopy(case))
-        print(json.dumps({"request": case, "predicate_failures": fails}, default=repr)[:4000])
+        r, snap, fails = run_other(copy.deepcopy(case))
+        print(json.dumps({"request": r, "impl": norm_other(r["f"], snap), "predicate_failures": fails}, default=repr)[:4000])
         for c, d in fails:
-            ctx.violation(OTHER_SITE[case["f"]], c, case, detail=d)
+            ctx.violation(OTHER_SITE[case["f"]], c, r, detail=d)
         return finish(ctx, trusted_base=TRUSTED_COMMON)
     r, snap, exc = run_impl(case)
     fails = pred(r, snap, exc)
